@@ -249,9 +249,8 @@ def finish(eng, prop, tier, seed, targets, records, problems, crashes, missing, 
         base = r['name'].split('@')[0]
         f = kf.get(r['name']) or kf.get(base)
         if f is None:
-            for p, pf in kprefix:
-                suf = ksuffix.get(pf['id'])
-                if base.startswith(p) and (not suf or base.endswith(suf) or re.sub(r'\{[^}]*\}', '', base).endswith(suf)):
+            for pf in known.get('findings', []):
+                if any(re.search(rx, base) for rx in pf.get('obligation_regex', [])):
                     f = pf
                     break
         if f is not None and (prop == 'all' or prop in f.get('properties', [prop])):
